@@ -230,7 +230,9 @@ func (ch c20) Run(c *core.Ctx) {
 			for k := idx % 6; k > 0; k-- {
 				oids = append(oids, []uint32{23, 25, 0, 1043, 20}[(idx+k)%5])
 			}
-			out, closed := cl.Step(append(append(pg.Parse("", q, oids), pg.Describe('S', "")...), pg.Sync()...))
+			// statement names from a small pool: the same name is re-parsed with other queries
+			name := []string{"", "a", "b", "a"}[idx%4]
+			out, closed := cl.Step(append(append(pg.Parse(name, q, oids), pg.Describe('S', name)...), pg.Sync()...))
 			if hangCheck(c, cl, cs) {
 				return
 			}
